@@ -30,6 +30,7 @@ type TierCfg struct {
 	MaxSteps    int64          `json:"max_steps"`
 	MaxPaths    int64          `json:"max_paths"`
 	Preempt     *int           `json:"preempt"`
+	Delays      *int           `json:"delays"`
 	SymMapOrder bool           `json:"sym_map_order"`
 	Skip        bool           `json:"skip"`
 	OneShot     bool           `json:"oneshot_first"`
@@ -113,6 +114,23 @@ func cmdCheck(args []string) int {
 		seed, _ = strconv.Atoi(s)
 	}
 	rtdebug.SetGCPercent(1000) // the interpreter allocates heavily and memory is plentiful
+	// memory watchdog: an exploration that outgrows the machine is an inconclusive run, never an
+	// out-of-memory kill without a verdict
+	go func() {
+		limit := uint64(28) << 30
+		if v, err := strconv.Atoi(os.Getenv("SYMGO_MEMLIMIT_GB")); err == nil && v > 0 {
+			limit = uint64(v) << 30
+		}
+		for {
+			time.Sleep(2 * time.Second)
+			var ms runtime.MemStats
+			runtime.ReadMemStats(&ms)
+			if ms.HeapAlloc > limit {
+				fmt.Printf("INCONCLUSIVE: memory limit reached (%d MiB of heap); the exploration was cut\n", ms.HeapAlloc>>20)
+				os.Exit(2)
+			}
+		}
+	}()
 	if pf := os.Getenv("SYMGO_CPUPROFILE"); pf != "" {
 		f, _ := os.Create(pf)
 		pprof.StartCPUProfile(f)
@@ -171,7 +189,7 @@ func cmdCheck(args []string) int {
 		}
 		cfg := Config{Property: plan.Property, Tier: *tier, Seed: seed, Pkg: r.Pkg, Harness: r.Fn, Workers: *workers,
 			BranchMs: tc.BranchMs, AssertMs: tc.AssertMs, MaxSteps: tc.MaxSteps, MaxPaths: tc.MaxPaths, Ascii7: tc.Ascii7,
-			SitePrefix: plan.SitePrefix, Params: map[string]int{}, SymMapOrder: tc.SymMapOrder, Debug: *debug, Preempt: -1, OneShotFirst: tc.OneShot, CrossCheck: tc.CrossCheck, Race: tc.Race}
+			SitePrefix: plan.SitePrefix, Params: map[string]int{}, SymMapOrder: tc.SymMapOrder, Debug: *debug, Preempt: -1, Delays: -1, OneShotFirst: tc.OneShot, CrossCheck: tc.CrossCheck, Race: tc.Race}
 		for k, v := range tc.Params {
 			cfg.Params[k] = v
 		}
@@ -181,6 +199,9 @@ func cmdCheck(args []string) int {
 				n, _ := strconv.Atoi(kv[1])
 				cfg.Params[kv[0]] = n
 			}
+		}
+		if tc.Delays != nil {
+			cfg.Delays = *tc.Delays
 		}
 		if tc.Preempt != nil {
 			cfg.Preempt = *tc.Preempt
@@ -432,7 +453,7 @@ func writeEvidence(plan Plan, tier string, seed int, results []*RunResult, incon
 		runs = append(runs, map[string]any{"run": r.Spec.Name, "harness": r.Spec.Pkg + "." + r.Spec.Fn, "params": r.Cfg.Params, "ascii7": r.Cfg.Ascii7,
 			"paths_started": ex.paths, "paths_completed": ex.pathsDone, "paths_infeasible": ex.infeasible, "decisions": ex.decisions, "ssa_instructions": ex.steps,
 			"max_decision_depth": ex.maxDepth, "obligation_sites": siteOut, "reach_markers": reachOut, "wall_s": r.Dur.Seconds(), "bounds": r.Spec.Bounds,
-			"unknown_branch_queries": ex.unknownBr, "paths_truncated_at_tick_bound": ex.truncated, "preemption_bound": r.Cfg.Preempt})
+			"unknown_branch_queries": ex.unknownBr, "paths_truncated_at_tick_bound": ex.truncated, "preemption_bound": r.Cfg.Preempt, "delay_bound": r.Cfg.Delays})
 		if r.Spec.Bounds != "" {
 			bounds = append(bounds, r.Spec.Name+": "+r.Spec.Bounds)
 		}
